@@ -127,8 +127,12 @@ type env struct {
 
 	baseG                int
 	open                 int // scopes legitimately open: one watcher goroutine each
-	knownGodi, knownProp int // leftover goroutines already reported at an earlier checkpoint of this case
-	openProp             int // open scopes derived directly from the custom context: one propagation goroutine each
+	baseGodi, baseProp   int // godi-framed / propagation goroutines left over by earlier cases of this process
+	contaminated         bool
+	contNoted            bool
+	tailNormal           bool // fault case: the failed creations were already checked on their own
+	knownGodi, knownProp int  // leftover goroutines already reported at an earlier checkpoint of this case
+	openProp             int  // open scopes derived directly from the custom context: one propagation goroutine each
 
 	viol     map[string]*pending
 	inconcl  []string
@@ -497,6 +501,51 @@ func waitGoroutines(want, open, openProp int, bound time.Duration) (int, bool, *
 
 const goroutineBound = 10 * time.Second
 
+// checkGoroutines waits (bounded) for the goroutine count to return to the case baseline plus
+// the watchers of the scopes that are legitimately open, and classifies any surplus.
+// phase "failed-create": the only calls since the previous check were failing creations.
+func (e *env) checkGoroutines(label, phase string) int {
+	e.c.R.Count("goroutine_checks", 1)
+	if e.contaminated {
+		n, ok, _ := waitGoroutines(e.baseG+e.open+e.openProp+e.knownGodi+e.knownProp, -1, 0, 100*time.Millisecond)
+		if !ok && !e.contNoted {
+			e.contNoted = true
+			e.inconcl = append(e.inconcl, fmt.Sprintf("%s: goroutine accounting skipped: the worker process already carries %d goroutines leaked by earlier cases (reported there); NumGoroutine=%d", label, e.baseG, n))
+		}
+		return n - e.baseG
+	}
+	openG, openP := e.baseGodi+e.open+e.knownGodi, e.baseProp+e.openProp+e.knownProp
+	want := e.baseG + e.open + e.openProp + e.knownGodi + e.knownProp
+	n, ok, d := waitGoroutines(want, openG, openP, goroutineBound)
+	if ok {
+		return n - e.baseG
+	}
+	how := fmt.Sprintf("%v after the last call", goroutineBound)
+	if d.quiescent {
+		how = "and are all parked in a channel wait in two consecutive dumps while nothing else can run"
+	}
+	switch {
+	case d.godi > openG:
+		clause, sig := "goroutine-leak", "C14/goroutine-leak:kind=scope-watcher:after="+e.closeFeature()
+		if phase == "failed-create" {
+			clause, sig = "failed-create-goroutine-leak", "C14/failed-create-goroutine-leak:where="+e.whereClass()
+		}
+		e.violation(clause, sig, fmt.Sprintf("%s: %d goroutine(s) with godi frames remain %s (only %d scope(s) are still open and may own one each); NumGoroutine=%d baseline=%d\n%s", label, d.godi-e.baseGodi, how, e.open, n, e.baseG, strings.Join(d.godiStacks, "\n\n")))
+		e.knownGodi += d.godi - openG
+	case d.prop > openP:
+		clause, sig := "goroutine-leak", "C14/goroutine-leak:kind=context-propagation:after="+e.closeFeature()
+		if phase == "failed-create" {
+			// the propagation goroutine of the never-cancelled derived context: same clause as the context itself
+			clause, sig = "failed-create-ctx-not-cancelled", "C14/failed-create-ctx-not-cancelled:where="+e.whereClass()
+		}
+		e.violation(clause, sig, fmt.Sprintf("%s: %d context-propagation goroutine(s) of contexts that godi derived from the caller's (never cancelled, non-std) context remain %s (expected %d): the derived context was never cancelled\n%s", label, d.prop-e.baseProp, how, e.openProp, strings.Join(d.propStacks, "\n\n")))
+		e.knownProp += d.prop - openP
+	default:
+		e.inconcl = append(e.inconcl, fmt.Sprintf("%s: NumGoroutine=%d > expected %d after %v but no extra goroutine has a godi frame (godi=%d open=%d prop=%d other=%d): %s", label, n, want, goroutineBound, d.godi, e.open, d.prop, d.other, trim(strings.Join(d.otherStacks, "\n\n"), 1500)))
+	}
+	return n - e.baseG
+}
+
 // ---- checkpoints ----
 
 type cpStats struct {
@@ -541,36 +590,11 @@ func (e *env) checkpoint(label string, cycles int, final bool) cpStats {
 	fault := e.spec.Kind == "fault"
 
 	// 1. goroutines
-	openG, openP := e.open+e.knownGodi, e.openProp+e.knownProp
-	want := e.baseG + openG + openP
-	n, ok, d := waitGoroutines(want, openG, openP, goroutineBound)
-	st.Goroutines = n - e.baseG
-	e.c.R.Count("goroutine_checks", 1)
-	if !ok {
-		how := fmt.Sprintf("%v after the last call", goroutineBound)
-		if d.quiescent {
-			how = "and are all parked in a channel wait in two consecutive dumps while nothing else can run"
-		}
-		switch {
-		case d.godi > openG:
-			clause, sig := "goroutine-leak", "C14/goroutine-leak:kind=scope-watcher:after="+e.closeFeature()
-			if fault {
-				clause, sig = "failed-create-goroutine-leak", "C14/failed-create-goroutine-leak:where="+e.whereClass()
-			}
-			e.violation(clause, sig, fmt.Sprintf("%s: %d goroutine(s) with godi frames remain %s (only %d scope(s) are still open and may own one each); NumGoroutine=%d baseline=%d\n%s", label, d.godi, how, e.open, n, e.baseG, strings.Join(d.godiStacks, "\n\n")))
-			e.knownGodi += d.godi - openG
-		case d.prop > openP:
-			clause, sig := "goroutine-leak", "C14/goroutine-leak:kind=context-propagation:after="+e.closeFeature()
-			if fault {
-				// the propagation goroutine of the never-cancelled derived context: same clause as the context itself
-				clause, sig = "failed-create-ctx-not-cancelled", "C14/failed-create-ctx-not-cancelled:where="+e.whereClass()
-			}
-			e.violation(clause, sig, fmt.Sprintf("%s: %d context-propagation goroutine(s) of contexts that godi derived from the caller's (never cancelled, non-std) context remain %s (expected %d): the derived context was never cancelled\n%s", label, d.prop, how, e.openProp, strings.Join(d.propStacks, "\n\n")))
-			e.knownProp += d.prop - openP
-		default:
-			e.inconcl = append(e.inconcl, fmt.Sprintf("%s: NumGoroutine=%d > expected %d after %v but no extra goroutine has a godi frame (godi=%d open=%d prop=%d other=%d): %s", label, n, want, goroutineBound, d.godi, e.open, d.prop, d.other, trim(strings.Join(d.otherStacks, "\n\n"), 1500)))
-		}
+	phase := "normal"
+	if fault && !e.tailNormal {
+		phase = "failed-create"
 	}
+	st.Goroutines = e.checkGoroutines(label, phase)
 
 	// 2. contexts of closed / failed scopes
 	type agg struct {
